@@ -142,6 +142,19 @@ def directed_cases():
     for nfr in (70, 130, 250):      # (a fragment id is one byte: 255 fragments is the largest message the encoding can carry)
         cases.append(("long-message-head-lost:%d" % nfr, ps.Cfg(fragment_size=3, resend_timeout=1.0),
                       [[("c", 0, bytes((i * 7) & 0xFF for i in range(3 * nfr - 1))), ("c", 0, b"after")], [("s", 0, b"reply")]], ff_head, "budget", {}))
+    # the largest message the encoding can carry at the usual fragment sizes (255 fragments: 247 KB at 970, 357 KB at 1400 bytes per
+    # fragment), whole and one byte short of it, with one fragment in the middle lost once
+    def ff_mid(sim, rng):
+        seen = [0]
+        def fate(tx):
+            if _is_data(tx, True) and len(tx.data) > 500:
+                seen[0] += 1
+                if seen[0] == 100: return []
+            return [0.004]
+        return fate
+    for fs, cut in ((1400, 0), (970, 1)):
+        cases.append(("largest-message:%d:%d" % (fs, cut), ps.Cfg(fragment_size=fs, resend_timeout=1.0),
+                      [[("c", 0, bytes((i * 131 + (i >> 8)) & 0xFF for i in range(255 * fs - cut))), ("c", 0, b"after")], [("s", 0, b"reply")]], ff_mid, "budget", {}))
     # an application that reads late: 40..150 complete messages wait unread for longer than the whole retransmission budget (the
     # receiver is busy, or uploads first), then everything is read — nothing may be lost, the connection must survive (PRUDP has
     # no flow control: whatever arrives must be taken off the wire and acknowledged regardless of what the application does)
@@ -445,7 +458,7 @@ def work(args):
         sess = ps.run_session(cfg, sseed, script, ff, **kwargs)
         bad = judge(sess, regime)
         big = len(sess.netlog) > 20000
-        if isinstance(seed, str) and seed.startswith("slow-reader"):
+        if isinstance(seed, str) and (seed.startswith("slow-reader") or seed.startswith("largest-message")):
             rechunk = True          # judged on the real code only
         lines, expect = to_lines(sess, "s%d" % idx) if not sess.crash and not big and not sess.cfg.compression and not rechunk else ([], [])
         stats = {"tx": sum(1 for e in sess.netlog if e[0] == "tx"), "regime": regime if not isinstance(seed, str) else "directed:" + seed,
